@@ -178,7 +178,17 @@ func main() {
 			default:
 				close(ch)
 			}
-			time.Sleep(10 * time.Millisecond)
+			if ctx.Err() == nil { // not cancelled: the step is complete when the file is stored
+				for i := 0; i < 5000; i++ {
+					g.mu.Lock()
+					_, stored := g.files[prefix+f]
+					g.mu.Unlock()
+					if stored {
+						break
+					}
+					time.Sleep(time.Millisecond)
+				}
+			}
 		}
 		var rerr error
 		select {
